@@ -7,9 +7,9 @@ PREFIXES = [[], ["validate"], ["unroll"], ["depth"], ["validate", "unroll"], ["n
 
 
 def make_cases(rnd, tier, progs):
-    n = 200 if tier == "quick" else 3000
+    n = 500 if tier == "quick" else 8000
     # qubits used only in later loop iterations / inside subroutines / conditionals
-    ps = progs(60 if tier == "quick" else 300, dict(gates=3, measure=2, reset=2, barrier=2, if_meas=2, for_=5, call=3, custom=2))
+    ps = progs(120 if tier == "quick" else 600, dict(gates=3, measure=2, reset=2, barrier=2, if_meas=2, for_=5, call=3, custom=2))
     out = []
     for k in range(n):
         src = ps[k % len(ps)]
@@ -31,6 +31,9 @@ def make_cases(rnd, tier, progs):
             body.append((tgt, "remove_idle_qubits", True))       # nothing idle afterwards
         hist, nobs = modcheck.hist_with_obs(rnd, body, nmod)
         out.append(dict(src=src, hist=hist, nobs=nobs, family="populate"))
+    out += modcheck.enumerated(rnd, ["populate_idle_qubits"], "populate-on-every-structured-program",
+                               before=((), ("unroll",), ("validate",), ("unroll", "validate")),
+                               after=((), ("populate_idle_qubits",), ("unroll",), ("remove_idle_qubits",)))
     return out
 
 
